@@ -5,6 +5,7 @@ import Astits.Proofs.Layout
 import Astits.Proofs.PESRT
 import Astits.Generated.Exprs
 import Astits.Proofs.SpecEq.PES
+import Astits.Proofs.PESReader
 namespace Astits.C12
 
 /-- PTS and DTS: all 2^33 values, whatever the 4-bit prefix ('0010', '0011', '0001') -/
@@ -330,5 +331,211 @@ example : (pesHeaderBytes { streamID := 0xe0, optionalHeader := some exAudioOpt,
   decide +kernel
 
 end WriterEqSpec
+
+/-! ## P1 — reader side for the FULL reference encoder: header stuffing, previous_PES_packet_CRC, every
+PES_packet_length situation (helpers: `Proofs/PESReader.lean`, namespace `Astits.PESReader`)
+
+`parse_pesEncode` above covers only what the WRITER emits (`Spec.pesEncode h 0 …`, no CRC).  Real streams carry
+PES_header_data_length larger than the fields present (stuffing bytes 0xff) and previous_PES_packet_CRC; the theorems below
+are about `parsePESData` on `Spec.pesEncode h stuffing payload` for those.
+
+`PESHeaderOkR h st`: 8-bit stream id, 16-bit `PacketLength` (ANY value), optional header present exactly for the stream
+ids that carry one and satisfying `PESOptOkR oh st` = the clauses of `PESOptOk` except
+* `HasCRC` free; `CRC < 65536` when set, `0` otherwise;
+* `HeaderLength = fieldsLength oh + st < 256` where `fieldsLength` = bytes of the optional fields present (CRC counted).
+`HeaderLength` is the only field of the parsed value in which the stuffing shows (the parser copies the
+PES_header_data_length byte; the stuffing bytes themselves are never read: the payload start is computed as
+`offset + PES_header_data_length` and sought).  Nothing is "recomputed" on the reader side: the delivered header is `h`. -/
+
+section ReaderFull
+open Astits.PESReader
+
+/-- **P1 (all cases)**: `L = optLen h` is 0 or 3 + PES_header_data_length; `payload` = the bytes that follow the header in the
+slice handed to `parsePESData` (bytes after the announced end included) -/
+theorem parse_pesEncode_reader (h : PESHeader) (st : Nat) (payload : Bytes) (ok : PESHeaderOkR h st) :
+    parsePESData.val (Spec.pesEncode h st payload) =
+      if h.packetLength = 0 then .ok { data := payload, header := h }
+      else if h.packetLength < optLen h ∨ optLen h + payload.length < h.packetLength then .err .other
+      else .ok { data := payload.take (h.packetLength - optLen h), header := h } :=
+  parse_pesEncode_general h st payload ok
+
+/-- unbounded (PES_packet_length = 0): everything up to the end of the slice -/
+theorem parse_pesEncode_unbounded (h : PESHeader) (st : Nat) (payload : Bytes) (ok : PESHeaderOkR h st)
+    (hpl : h.packetLength = 0) :
+    parsePESData.val (Spec.pesEncode h st payload) = .ok { data := payload, header := h } := by
+  rw [parse_pesEncode_reader h st payload ok, if_pos hpl]
+
+/-- exact (bounded): PES_packet_length = optional header + payload -/
+theorem parse_pesEncode_exact (h : PESHeader) (st : Nat) (payload : Bytes) (ok : PESHeaderOkR h st)
+    (hpl : h.packetLength = optLen h + payload.length) :
+    parsePESData.val (Spec.pesEncode h st payload) = .ok { data := payload, header := h } := by
+  rw [parse_pesEncode_reader h st payload ok]
+  by_cases h0 : h.packetLength = 0
+  · rw [if_pos h0]
+  · rw [if_neg h0, if_neg (by omega)]
+    have : h.packetLength - optLen h = payload.length := by omega
+    rw [this, List.take_length]
+
+/-- exact length, followed by `extra` bytes in the slice (what the test driver appends): the extra bytes are dropped -/
+theorem parse_pesEncode_exact_trailing (h : PESHeader) (st : Nat) (payload extra : Bytes) (ok : PESHeaderOkR h st)
+    (hpl : h.packetLength = optLen h + payload.length) (hpos : 0 < h.packetLength) :
+    parsePESData.val (Spec.pesEncode h st payload ++ extra) = .ok { data := payload, header := h } := by
+  have e : Spec.pesEncode h st payload ++ extra = Spec.pesEncode h st (payload ++ extra) := by
+    unfold Spec.pesEncode; simp only [List.append_assoc]
+  rw [e, parse_pesEncode_reader h st _ ok, if_neg (by omega), if_neg (by simp only [List.length_append]; omega)]
+  have : h.packetLength - optLen h = payload.length := by omega
+  rw [this, List.take_left']
+  rfl
+
+/-- shorter than the unit: the data is TRUNCATED to the announced length, silently -/
+theorem parse_pesEncode_shorter (h : PESHeader) (st : Nat) (payload : Bytes) (ok : PESHeaderOkR h st)
+    (hlo : optLen h ≤ h.packetLength) (hpos : 0 < h.packetLength) (hhi : h.packetLength ≤ optLen h + payload.length) :
+    parsePESData.val (Spec.pesEncode h st payload) =
+      .ok { data := payload.take (h.packetLength - optLen h), header := h } := by
+  rw [parse_pesEncode_reader h st payload ok, if_neg (by omega), if_neg (by omega)]
+
+/-- longer than the unit: an error, never partial or wrong data -/
+theorem parse_pesEncode_longer (h : PESHeader) (st : Nat) (payload : Bytes) (ok : PESHeaderOkR h st)
+    (hlong : optLen h + payload.length < h.packetLength) :
+    parsePESData.val (Spec.pesEncode h st payload) = .err .other := by
+  rw [parse_pesEncode_reader h st payload ok, if_neg (by omega), if_pos (.inr hlong)]
+
+/-- a non-zero PES_packet_length that ends inside the optional header ("data end before data start"): an error -/
+theorem parse_pesEncode_inside_header (h : PESHeader) (st : Nat) (payload : Bytes) (ok : PESHeaderOkR h st)
+    (hpos : 0 < h.packetLength) (hs : h.packetLength < optLen h) :
+    parsePESData.val (Spec.pesEncode h st payload) = .err .other := by
+  rw [parse_pesEncode_reader h st payload ok, if_neg (by omega), if_pos (.inl hs)]
+
+/-- the optional header alone, wherever it stands: the header comes back and the payload start is
+`offset + 3 + PES_header_data_length` (stuffing skipped); its encoding has exactly that many bytes -/
+theorem pes_optional_header_reader (h : PESOptionalHeader) (st : Nat) (ok : PESOptOkR h st) (pre post : Bytes) :
+    (Spec.pesOptionalEncode h st).length = 3 + h.headerLength ∧
+    ∃ j, parsePESOptionalHeader ⟨pre ++ Spec.pesOptionalEncode h st ++ post, pre.length⟩ =
+      .ok ((h, (pre.length : Int) + 3 + ((h.headerLength : Nat) : Int)), j) :=
+  ⟨optEncode_length h st ok,
+   (parseOpt_spec h st ok _ _ post ⟨pre, by simp, rfl⟩).imp fun _ hj => hj.1⟩
+
+/-- the reader predicate extends the writer's: `PESOptOk h → PESOptOkR h 0` -/
+theorem okR_of_writer_ok (h : PESOptionalHeader) (ok : PESOptOk h) : PESOptOkR h 0 := okR_of_ok h ok
+
+/-! #### non-vacuity -/
+
+/-- PTS, previous_PES_packet_CRC 0xbeef, 5 stuffing bytes: PES_header_data_length = 5 + 2 + 5 -/
+def exCRCStuffOpt : PESOptionalHeader :=
+  { markerBits := 2, ptsDTSIndicator := 2, pts := some { base := 90000, extension := 0 }, hasCRC := true, crc := 0xbeef, headerLength := 12 }
+
+theorem exCRCStuffOpt_ok : PESOptOkR exCRCStuffOpt 5 where
+  markerBits := rfl
+  scramblingControl := by decide
+  ind := by decide
+  pts := by rw [if_pos (by decide)]; exact ⟨90000, by decide, rfl⟩
+  dts := by rw [if_neg (by decide)]; rfl
+  escr := by rw [if_neg (by decide)]; rfl
+  esRate := by rw [if_neg (by decide)]; rfl
+  dsm := by rw [if_neg (by decide)]; rfl
+  aci := by rw [if_neg (by decide)]; rfl
+  crc := by rw [if_pos (by decide)]; decide
+  noOptionalFields := rfl
+  noPack := ⟨rfl, rfl⟩
+  headerLength := by decide +kernel
+  fits := by decide
+  extFlags := fun _ => ⟨rfl, rfl, rfl, rfl⟩
+  priv := by rw [if_neg (by decide)]; rfl
+  psc := by rw [if_neg (by decide)]; exact ⟨rfl, rfl, rfl⟩
+  pstd := by rw [if_neg (by decide)]; exact ⟨rfl, rfl⟩
+  ext2 := by rw [if_neg (by decide)]; exact ⟨rfl, rfl⟩
+
+def exCRCStuff (pl : Nat) : PESHeader := { streamID := 0xc0, optionalHeader := some exCRCStuffOpt, packetLength := pl }
+
+theorem exCRCStuff_ok (pl : Nat) (hpl : pl < 65536) : PESHeaderOkR (exCRCStuff pl) 5 := by
+  refine ⟨show (0xc0 : Nat) < 256 by decide, hpl, ?_⟩
+  show if hasPESOptionalHeader 0xc0 = true then _ else _
+  rw [if_pos (by decide)]
+  exact ⟨exCRCStuffOpt, rfl, exCRCStuffOpt_ok⟩
+
+/-- the bytes: start code, c0, length 0x0013 = 15 + 4, flags 80 82, header data length 0x0c, PTS, CRC be ef, ff×5, payload -/
+example : Spec.pesEncode (exCRCStuff 19) 5 [1, 2, 3, 4]
+    = [0, 0, 1, 0xc0, 0, 0x13, 0x80, 0x82, 0x0c, 0x21, 0x00, 0x05, 0xbf, 0x21, 0xbe, 0xef, 0xff, 0xff, 0xff, 0xff, 0xff, 1, 2, 3, 4] := by
+  decide +kernel
+
+example : optLen (exCRCStuff 19) = 15 := by decide +kernel
+
+/-- the four situations on this header (optional header 15 bytes, 4 payload bytes) -/
+example : parsePESData.val (Spec.pesEncode (exCRCStuff 19) 5 [1, 2, 3, 4]) = .ok { data := [1, 2, 3, 4], header := exCRCStuff 19 } :=
+  parse_pesEncode_exact _ 5 _ (exCRCStuff_ok 19 (by decide)) (by decide +kernel)
+example : parsePESData.val (Spec.pesEncode (exCRCStuff 0) 5 [1, 2, 3, 4]) = .ok { data := [1, 2, 3, 4], header := exCRCStuff 0 } :=
+  parse_pesEncode_unbounded _ 5 _ (exCRCStuff_ok 0 (by decide)) rfl
+example : parsePESData.val (Spec.pesEncode (exCRCStuff 17) 5 [1, 2, 3, 4]) = .ok { data := [1, 2], header := exCRCStuff 17 } :=
+  parse_pesEncode_shorter _ 5 _ (exCRCStuff_ok 17 (by decide)) (by decide +kernel) (by decide) (by decide +kernel)
+example : parsePESData.val (Spec.pesEncode (exCRCStuff 20) 5 [1, 2, 3, 4]) = .err .other :=
+  parse_pesEncode_longer _ 5 _ (exCRCStuff_ok 20 (by decide)) (by decide +kernel)
+example : parsePESData.val (Spec.pesEncode (exCRCStuff 14) 5 [1, 2, 3, 4]) = .err .other :=
+  parse_pesEncode_inside_header _ 5 _ (exCRCStuff_ok 14 (by decide)) (by decide) (by decide +kernel)
+/-- PES_packet_length = 15 = exactly the optional header: an empty payload, not an error -/
+example : parsePESData.val (Spec.pesEncode (exCRCStuff 15) 5 [1, 2, 3, 4]) = .ok { data := [], header := exCRCStuff 15 } :=
+  parse_pesEncode_shorter _ 5 _ (exCRCStuff_ok 15 (by decide)) (by decide +kernel) (by decide) (by decide +kernel)
+
+/-- every optional field of `exFullOpt` plus CRC plus 32 stuffing bytes: PES_header_data_length 45 + 2 + 32 = 79 -/
+def exFullCRCOpt : PESOptionalHeader := { exFullOpt with hasCRC := true, crc := 0xffff, headerLength := 79 }
+
+example : PESOptOkR exFullCRCOpt 32 where
+  markerBits := rfl
+  scramblingControl := by decide
+  ind := by decide
+  pts := by rw [if_pos (by decide)]; exact ⟨8589934591, by decide, rfl⟩
+  dts := by rw [if_pos (by decide)]; exact ⟨1, by decide, rfl⟩
+  escr := by rw [if_pos (by decide)]; exact ⟨123456789, 511, by decide, by decide, rfl⟩
+  esRate := by rw [if_pos (by decide)]; decide
+  dsm := by rw [if_pos (by decide)]; exact ⟨_, rfl, by decide⟩
+  aci := by rw [if_pos (by decide)]; decide
+  crc := by rw [if_pos (by decide)]; decide
+  noOptionalFields := rfl
+  noPack := ⟨rfl, rfl⟩
+  headerLength := by decide +kernel
+  fits := by decide
+  extFlags := fun h => by cases h
+  priv := by rw [if_pos (by decide)]; rfl
+  psc := by rw [if_pos (by decide)]; decide
+  pstd := by rw [if_pos (by decide)]; decide
+  ext2 := by rw [if_pos (by decide)]; exact ⟨by decide, rfl⟩
+
+/-! #### the excluded points, evaluated -/
+
+/-- (1) `fits` (PES_header_data_length < 256) cannot be violated by a byte; with fields + stuffing ≥ 256 the REFERENCE wraps
+the length byte (mod 256) and the parser then starts the data inside the stuffing: here 5 + 251 = 256 → length byte 0,
+data = PTS bytes + stuffing + payload -/
+example : (parsePESData.val (Spec.pesEncode { streamID := 0xc0, packetLength := 0, optionalHeader := some { markerBits := 2, ptsDTSIndicator := 2, pts := some { base := 0, extension := 0 } } } 251 [7])).isOk = true
+    ∧ (match parsePESData.val (Spec.pesEncode { streamID := 0xc0, packetLength := 0, optionalHeader := some { markerBits := 2, ptsDTSIndicator := 2, pts := some { base := 0, extension := 0 } } } 251 [7]) with
+        | .ok d => d.data.length == 257 && d.header.optionalHeader.map (·.headerLength) == some 0 | _ => false) = true := by
+  decide +kernel
+
+/-- (2) `noPack`: pack_header_field_flag set.  The parser reads ONE byte (pack_field_length) into `PackField` and does not
+skip the pack header itself — the following extension fields would be read from inside the pack header; the reference
+encodes no pack header at all.  On reference bytes with the flag set and P-STD present (scale 1, size 0x123 → bytes 61 23),
+`PackField` gets 0x61 and the P-STD buffer is read from 23 and the first PAYLOAD byte 07: size 0x307.  The data is still
+`[7]` because the payload start comes from PES_header_data_length, not from the bytes consumed. -/
+example : (match parsePESData.val (Spec.pesEncode { streamID := 0xc0, packetLength := 0, optionalHeader := some { markerBits := 2, hasExtension := true, hasPackHeaderField := true, hasPSTDBuffer := true, pstdBufferScale := 1, pstdBufferSize := 0x123, headerLength := 3 } } 0 [7]) with
+        | .ok d => d.header.optionalHeader.map (fun (o : PESOptionalHeader) => (o.packField, o.pstdBufferScale, o.pstdBufferSize, d.data)) | _ => none)
+      = some (0x61, 1, 0x307, [7]) := by
+  decide +kernel
+
+/-- (3) `headerLength` smaller than the fields present (non-conformant): no error — the payload "starts" inside the
+fields: PES_header_data_length = 0 with a PTS present delivers the 5 PTS bytes as data -/
+example : (match parsePESData.val [0, 0, 1, 0xc0, 0, 0, 0x80, 0x80, 0x00, 0x21, 0x00, 0x01, 0x00, 0x01, 9] with
+        | .ok d => d.data | _ => []) = [0x21, 0x00, 0x01, 0x00, 0x01, 9] := by
+  decide +kernel
+
+/-- (4) marker bits ≠ '10' (MPEG-1 style or garbage): not checked, delivered in `MarkerBits` -/
+example : (match parsePESData.val [0, 0, 1, 0xc0, 0, 0, 0x40, 0x00, 0x00, 9] with
+        | .ok d => d.header.optionalHeader.map (·.markerBits) | _ => none) = some 1 := by
+  decide +kernel
+
+/-- (5) stuffing bytes that are not 0xff: never read, same result -/
+example : (match parsePESData.val [0, 0, 1, 0xc0, 0, 0, 0x80, 0x00, 0x03, 0xaa, 0xbb, 0xcc, 9],
+              parsePESData.val [0, 0, 1, 0xc0, 0, 0, 0x80, 0x00, 0x03, 0xff, 0xff, 0xff, 9] with
+        | .ok d, .ok d' => decide (d = d') && d.data == [9] | _, _ => false) = true := by
+  decide +kernel
+
+end ReaderFull
 
 end Astits.C12
